@@ -254,3 +254,32 @@ Print Assumptions C16_sessions_survive.
 Theorem C16_sessions_survive_nonvacuous : proto [] evs_same = true /\ run true evs_same server0 <> None.
 Proof. exact proto_nonvacuous. Qed.
 Print Assumptions C16_sessions_survive_nonvacuous.
+
+(* SENDER SIDE, any chunking: however the recorder cuts a metadata file into SEND_META_DATA messages - as long as
+   every file gets at least one message and the payloads of its messages, in order, add up to the file - the
+   receiver's directory has, for every name, exactly the local file.  (The code sends one message per file:
+   [whole]; fixed-size pieces qualify too; a sender that drops the last piece does not satisfy the hypothesis.) *)
+Theorem C16_same_file_set_any_chunking : forall chunk : bytes -> list bytes,
+  (forall c, chunk c <> []) -> (forall c, concat (chunk c) = c) ->
+  forall fx k d L data s,
+  NoDup (map fst L) -> (forall e, In e L -> sent_name (fst e) = true) -> forallb is_data data = true ->
+  mkdir_name fx d (clients s) = Some d -> create_directory d (fs s) d = Some fresh_dir ->
+  exists s' R, run fx (map (pair k) (MDir d :: (data ++ meta_msgs_c chunk L) ++ [MEnd])) s = Some s' /\ fs s' d = Some R /\
+    forall f, flookup f R = match flookup f L with Some c => Some c | None => flookup f (local_dir data) end.
+Proof. exact same_file_set_c. Qed.
+Print Assumptions C16_same_file_set_any_chunking.
+
+Theorem C16_chunkings_nonvacuous :
+  ((forall c, whole c <> []) /\ (forall c, concat (whole c) = c)) /\
+  (forall fuel n, (forall c, pieces fuel n c <> []) /\ (forall c, concat (pieces fuel n c) = c)) /\
+  (forall L, meta_msgs_c whole L = meta_msgs L).
+Proof. exact (conj whole_ok (conj pieces_ok meta_msgs_whole)). Qed.
+Print Assumptions C16_chunkings_nonvacuous.
+
+(* a sender that cuts into n-byte pieces but computes the last piece as (length mod n) loses the last piece of a
+   file whose size is an exact multiple of n - and only then *)
+Theorem C16_last_piece_mod_refuted :
+  concat (bad_pieces 4 [1; 2; 3; 4; 5; 6; 7]) = [1; 2; 3; 4; 5; 6; 7] /\
+  concat (bad_pieces 4 [1; 2; 3; 4; 5; 6; 7; 8]) = [1; 2; 3; 4] /\ concat (bad_pieces 4 [1; 2; 3; 4]) = [].
+Proof. exact bad_pieces_loses_data. Qed.
+Print Assumptions C16_last_piece_mod_refuted.
